@@ -2,7 +2,7 @@
    implementation did.  In the correspondence an extraction result is the call the implementation
    made to the member's extractor: (basename used to choose the extractor, bytes, path label). *)
 From Coq Require Import ZArith List Bool Lia.
-From S2T Require Import Lib.PyStr C10.Model.
+From S2T Require Import Lib.PyStr C10.Model C10.Parse.
 Import ListNotations.
 Open Scope N_scope.
 
@@ -84,13 +84,51 @@ Definition corrt (T : tables) (c : caset) : bool :=
   outcome_eqb (read_tar call T (sup_of (kt_names c)) (low_of (kt_names c)) the_extract (kt_open c) (kt_apath c))
               (kt_expect c).
 
-(* detection: (first bytes of the file, implementation's _detect_archive_type_optimized) *)
-Definition corrd (T : tables) (c : bytes * option str) : bool :=
-  opt_eqb str_eqb (detect T (fst c)) (snd c).
+(* detection: (first bytes of the file, tarfile's verdict on the first block, implementation's
+   _detect_archive_type_optimized) *)
+Definition corrd (T : tables) (c : bytes * bool * option str) : bool :=
+  let '(f, ok, ex) := c in opt_eqb str_eqb (detect T (fun _ => ok) f) ex.
 
 Definition handler_eqb (a b : handler) : bool :=
   match a, b with
   | HZip, HZip | H7z, H7z | HNone, HNone => true
   | HTar m, HTar m' => str_eqb m m'
+  | _, _ => false
+  end.
+
+(* ------------------------------------------------------------------ byte-level header parser
+   case = (archive bytes, lzma calls, crc32 calls, what SevenZipReader(file) did) *)
+Inductive pexpect :=
+| XBad | XEnc
+| XOk (pack : option (N * list N))
+      (folders : list (list (bytes * option bytes) * list N * N))   (* coders, unpack_sizes, num_streams *)
+      (sizes : list N)                                              (* _file_sizes *)
+      (files : list (str * N * bool * N)).                          (* filename, uncompressed, is_directory, attributes *)
+
+Definition crc_table := list (bytes * N).
+Fixpoint crc_find (t : crc_table) (d : bytes) : N :=
+  match t with [] => 4294967296 | (d', c) :: t' => if str_eqb d d' then c else crc_find t' d end.
+
+Definition coder_eqb (c : coder) (e : bytes * option bytes) : bool :=
+  str_eqb (c_id c) (fst e) && opt_eqb str_eqb (c_props c) (snd e).
+Definition folder_eqb (fn : folder * N) (e : list (bytes * option bytes) * list N * N) : bool :=
+  let '(cs, us, n) := e in
+  list_eqb coder_eqb (f_coders (fst fn)) cs && list_eqb N.eqb (f_unpack (fst fn)) us && (snd fn =? n).
+Definition pack_eqb (a b : N * list N) : bool := (fst a =? fst b) && list_eqb N.eqb (snd a) (snd b).
+Definition file_eqb (fe : finfo * fentry) (e : str * N * bool * N) : bool :=
+  let '(n, z, d, a) := e in
+  str_eqb (fi_name (fst fe)) n && (fi_size (fst fe) =? z) && Bool.eqb (fi_dir (fst fe)) d && (e_attr (snd fe) =? a).
+
+Definition corrp (T : tables) (c : bytes * lz_table * crc_table * pexpect) : bool :=
+  let '(file, lz, crcs, ex) := c in
+  match parse_7z T (fun p z d => lz_find lz 1 p z d) (fun b d => lz_find lz 2 [b] None d) (crc_find crcs) file, ex with
+  | PBad, XBad => true
+  | PEnc, XEnc => true
+  | POk st _, XOk pk fl sz fs =>
+      opt_eqb pack_eqb (p_pack st) pk
+      && list_eqb folder_eqb (combine (p_folders st) (p_nstreams st)) fl
+      && (lenN (p_folders st) =? lenN (p_nstreams st))
+      && list_eqb N.eqb (p_sizes st) sz
+      && list_eqb file_eqb (combine (file_infos (p_files st) (p_sizes st)) (p_files st)) fs
   | _, _ => false
   end.
